@@ -515,3 +515,53 @@ PROPS["C02"] = dict(
     bounds={"quick": "16 skeletons x {intervals, zones, flat Boolean x intervals} (forward) and 12 skeletons x 4 fwd_bwd settings x {intervals, zones} (forward+backward); <= 3 symbolic constants; executions of <= 14 block visits", "thorough": "all 16 fwd_bwd settings, more domains"},
     outside=["checker interleaved with the inter-procedural analyses (C09/C10 harnesses)", "reference assertions (assert_ref)", "programs outside the family"],
     assumptions=E2_ASSUME)
+
+# ---------------------------------------------------------------- C17 (transformations), C18 (liveness, assertion crawler)
+XF_PROGS = ["deadcode", "chain", "sumodd", "crawl", "straight", "diamond", "loop", "loop2", "nested", "selfloop", "irreducible", "unreach", "ops", "bools", "bsel2", "bloop", "noexit"]
+XF_SYM = dict(BWD_SYM, deadcode="0,1,3", chain="0,1,3", sumodd="0,1", crawl="0,1")
+
+
+def xf_job(prog, mode, d=None, dom=1, blocks=10, budget=400):
+    args = {"prog": prog, "mode": mode, "sym": ",".join(XF_SYM[prog].split(",")[:2]), "blocks": blocks}
+    if d:
+        args["dir"] = d
+    return Job("xform", args, defines=("DOM=%d" % dom,), budget=budget, what="%s %s %s" % (mode, d or "", prog), witnesses=1)
+
+
+def c17_jobs(tier, seed):
+    J = []
+    for pr in XF_PROGS:
+        for mode in ("simplify", "dce", "dce+simplify", "lower"):
+            for d in ("fwd", "bwd"):
+                J.append(xf_job(pr, mode, d, blocks=10 if tier == "quick" else 14))
+    if tier == "thorough":
+        for pr in XF_PROGS:
+            J.append(xf_job(pr, "lower", "fwd", dom=2))
+            J.append(xf_job(pr, "lower", "bwd", dom=2))
+    return J
+
+
+PROPS["C17"] = dict(
+    jobs=c17_jobs,
+    explanation="cfg::simplify(), dead_code_elimination and lower_safe_assertions (after a real interval analysis + assertion checker) are applied to a copy of each skeleton; twin runs of the reference interpreter - one forking freely, the other guided along the same route with the same initial state and havoc values - are compared in both directions: "
+                "every exit-reaching execution of the original has a counterpart in the transformed cfg with the same sequence of evaluated conditions and assertion outcomes and the same final values of the function outputs, and vice versa; structural well-formedness (entry/exit kept, edges symmetric) is asserted directly. z3 decides the comparisons for all initial states and constants on every path.",
+    bounds={"quick": "17 skeletons (dead assignments and havocs, single-successor chains, unreachable and non-exiting blocks, self loops, function declarations with outputs) x 4 transformations x 2 directions, executions of <= 10 block visits, 2 symbolic constants", "thorough": "<= 14 block visits; lowering also after a zones analysis"},
+    outside=["programs outside the family", "removed statements that can fail (excluded by the property)", "array/reference statements"],
+    assumptions=E2_ASSUME + ["havoc values are matched by order of occurrence (no skeleton has a dead havoc followed by a live havoc of the same variable)"])
+
+
+def c18_jobs(tier, seed):
+    J = []
+    for pr in XF_PROGS:
+        for mode in ("liveness", "crawler"):
+            J.append(xf_job(pr, mode, blocks=10 if tier == "quick" else 14))
+    return J
+
+
+PROPS["C18"] = dict(
+    jobs=c18_jobs,
+    explanation="live_and_dead_analysis and assertion_crawler run on each skeleton; for every block visit of every interpreter execution and every variable reported dead at the end of the block (resp. not reported for an assertion at the block entry) a twin execution with that variable replaced by a fresh symbol is run along the same route: "
+                "z3 decides that no later condition, assertion outcome or function output changes (self-composition), for all initial states, constants and perturbation values.",
+    bounds={"quick": "17 skeletons, executions of <= 10 block visits, every block visit x every dead / unreported variable", "thorough": "<= 14 block visits"},
+    outside=["inter-procedural assertion crawler (summaries)", "array/reference statements", "programs outside the family"],
+    assumptions=E2_ASSUME)
